@@ -1179,6 +1179,83 @@ theorem kline_roles (k : Nat) (offsets : List Nat) (bs : Bytes) (hk : 0 < k)
   simp only [Function.comp, Prod.map, id]
   exact slice_add bs po.1.1 po.2 po.1.2
 
+theorem zip_prev_take (g : Nat → Nat) (a : Nat) (l : List Nat) (t : Nat) :
+    List.zip (a :: (l.take t).map g) (l.take t) = (List.zip (a :: l.map g) l).take t := by
+  induction l generalizing a t with
+  | nil => simp
+  | cons x xs ih =>
+    cases t with
+    | zero => simp
+    | succ t' =>
+      simp only [List.take_succ_cons, List.map_cons, List.zip_cons_cons, List.cons.injEq, true_and]
+      exact ih (g x) t'
+
+theorem zip_dropLast_eq (g : Nat → Nat) (a : Nat) (l : List Nat) :
+    List.zip (a :: l.dropLast.map g) l = List.zip (a :: l.map g) l := by
+  have := zipWith_dropLast (fun (x : Nat) (y : Nat) => (x, y)) g a l
+  simpa [List.zip] using this
+
+theorem chunkF_take {α} (n k : Nat) (xs : List α) : chunkF n k (xs.take (n * k)) = chunkF n k xs := by
+  induction k generalizing xs with
+  | zero => simp [chunkF]
+  | succ k ih =>
+    simp only [chunkF]
+    have h1 : (xs.take (n * (k + 1))).take n = xs.take n := by
+      rw [List.take_take]; congr 1; rw [Nat.mul_succ]; omega
+    have h2 : (xs.take (n * (k + 1))).drop n = (xs.drop n).take (n * k) := by
+      rw [List.drop_take]; congr 1; rw [Nat.mul_succ]; omega
+    rw [h1, h2, ih]
+
+/-- **kline_roles_any.** The same without assuming a whole number of records: for every buffer with at least `k`
+complete lines the table covers the first ⌊lines / k⌋ records, line `k·i + j` for record `i`, role `j`; left-over
+lines of an incomplete last record are not parsed. -/
+theorem kline_roles_any (k : Nat) (offsets : List Nat) (bs : Bytes) (hk : 0 < k) (hpos : k ≤ (linesOf bs).length) :
+    ∃ rows, klineTable k offsets bs = .ok rows ∧
+      rows.map (fun r => r.map (fun p => slice bs p.1 p.2))
+        = (chunkF k ((linesOf bs).length / k) (linesOf bs)).map (fun e =>
+            (List.zip e (offsets ++ List.replicate k 0)).map (fun lo => lo.1.drop lo.2)) := by
+  have hlen : (delimsFrom (· == 10) 0 bs).length = (linesOf bs).length := by
+    rw [delimsFrom_length_eq_pieces (· == 10) bs 0 []]
+    change (pieces (· == 10) bs).length = _
+    rw [pieces_nl]
+  have hlines : (List.zip (0 :: (delimsFrom (· == 10) 0 bs).map (· + 1)) (delimsFrom (· == 10) 0 bs)).map
+      (fun p => slice bs p.1 p.2) = linesOf bs := by
+    rw [List.zip, List.map_zipWith]
+    have := bridge (· == 10) bs
+    rw [pieces_nl] at this
+    rw [← this]
+  obtain ⟨nls, hnls⟩ : ∃ x, x = delimsFrom (· == 10) 0 bs := ⟨_, rfl⟩
+  rw [← hnls] at hlen hlines
+  obtain ⟨t, htdef⟩ : ∃ t, t = nls.length - nls.length % k := ⟨_, rfl⟩
+  have htq : t = k * (nls.length / k) := by
+    have := Nat.div_add_mod nls.length k
+    omega
+  have htl : (nls.take t).length = t := by rw [List.length_take]; omega
+  have hq : t / k = nls.length / k := by rw [htq, Nat.mul_div_cancel_left _ hk]
+  have hT : klineTable k offsets bs = .ok ((chunkF k (nls.length / k)
+      (List.zip (0 :: (nls.take t).dropLast.map (· + 1)) (nls.take t))).map
+      (fun r => (List.zip r (offsets ++ List.replicate k 0)).map (fun po => (po.1.1 + po.2, po.1.2)))) := by
+    unfold klineTable
+    simp only [← hnls]
+    have : ¬ (k = 0 ∨ nls.length < k) := by omega
+    simp only [this, if_false, ← htdef, htl, hq]
+  refine ⟨_, hT, ?_⟩
+  rw [zip_dropLast_eq, zip_prev_take, hlen] at *
+  simp only [List.map_map]
+  have hmapped : ((List.zip (0 :: nls.map (· + 1)) nls).take t).map (fun p => slice bs p.1 p.2) = (linesOf bs).take t := by
+    rw [List.map_take, hlines]
+  rw [← chunkF_take k ((linesOf bs).length / k) (linesOf bs)]
+  have htq' : k * ((linesOf bs).length / k) = t := by rw [htq, hlen]
+  rw [htq', ← hmapped, ← chunkF_map, List.map_map]
+  apply List.map_congr_left
+  intro r _
+  simp only [Function.comp]
+  rw [List.zip_map_left, List.map_map, List.map_map]
+  apply List.map_congr_left
+  intro po _
+  simp only [Function.comp, Prod.map, id]
+  exact slice_add bs po.1.1 po.2 po.1.2
+
 /-! ## the per-file composition: offset table + CR rule + typed columns = reference parser -/
 
 /-! ### position facts about the (start, end) pairs -/
@@ -1696,20 +1773,166 @@ theorem crAdjust_lf (data : Bytes) (d : Nat) (hd13 : d ≠ 13) (rows : List (Lis
               rcases h4 with h4 | h4 <;> omega
         rw [if_neg hne13]
 
+/-- one row under the CR rule, whether or not its line ends in CR: the adjusted pairs denote the fields of the
+line without a trailing CR -/
+theorem adjRow_general (data : Bytes) (d : Nat) (hd13 : d ≠ 13) (r : List (Nat × Nat)) (l : Bytes)
+    (htext : r.map (fun p => slice data p.1 p.2) = splitOn d l)
+    (hwfp : ∀ p ∈ r, wfPair (isDelim d) data 0 p) :
+    (adjRow data r).map (fun p => slice data p.1 p.2) = splitOn d (stripCR l) ∧
+    (∀ p ∈ adjRow data r, p.1 ≤ p.2 ∧ p.2 ≤ data.length) := by
+  have hwf : ∀ p ∈ r, p.1 ≤ p.2 ∧ p.2 ≤ data.length := by
+    intro p hp; obtain ⟨h1, h2, _, _⟩ := hwfp p hp; exact ⟨h1, by omega⟩
+  by_cases hcr : l.getLast? = some 13
+  · obtain ⟨h1, h2, _⟩ := adjRow_spec data d hd13 r l htext hwf hcr
+    refine ⟨?_, h2⟩
+    rw [h1]; simp [stripCR, hcr]
+  · -- the line does not end in CR: nothing moves
+    have hsame : adjRow data r = r := by
+      unfold adjRow
+      cases hlast : r.getLast? with
+      | none => rfl
+      | some pe =>
+        obtain ⟨s, e⟩ := pe
+        simp only
+        have hmem : (s, e) ∈ r := List.mem_of_getLast? hlast
+        obtain ⟨h1, h2, h3, h4⟩ := hwfp (s, e) hmem
+        simp only at h1 h2 h3 h4
+        have hne13 : data.getD (e - 1) 0 ≠ 13 := by
+          rcases Nat.lt_or_ge s e with hlt | hge
+          · have hf : (splitOn d l).getLast? = some (slice data s e) := by
+              rw [← htext, List.getLast?_map, hlast]; rfl
+            have hfne : slice data s e ≠ [] := by
+              intro h0
+              have := slice_length data s e (by omega)
+              rw [h0] at this; simp at this; omega
+            have := lastField_getLast d l _ hf hfne
+            rw [slice_getLast data s e hlt (by omega)] at this
+            intro h13
+            rw [h13] at this
+            exact hcr this
+          · have hse : s = e := by omega
+            rcases h4 with h4 | ⟨hpos, h4⟩
+            · -- s = e = 0: the byte at 0 is the delimiter itself
+              have he0 : e = 0 := by omega
+              subst he0
+              simp only [isDelim, Bool.or_eq_true, beq_iff_eq] at h3
+              simp only [Nat.zero_sub]
+              rcases h3 with h3 | h3 <;> omega
+            · rw [hse] at h4
+              simp only [isDelim, Bool.or_eq_true, beq_iff_eq] at h4
+              rcases h4 with h4 | h4 <;> omega
+        rw [if_neg hne13]
+        have hrne : r ≠ [] := by intro h; rw [h] at hlast; simp at hlast
+        have := List.dropLast_concat_getLast hrne
+        rw [List.getLast?_eq_some_getLast hrne] at hlast
+        simp only [Option.some.injEq] at hlast
+        rw [hlast] at this
+        exact this
+    rw [hsame]
+    refine ⟨?_, hwf⟩
+    rw [htext]; simp [stripCR, hcr]
+
+/-- the CR rule on a whole table when the first line ends in CR: every row denotes its line without a trailing CR -/
+theorem crAdjust_crmode (data : Bytes) (d : Nat) (hd13 : d ≠ 13) (rows : List (List (Nat × Nat))) (lines : List Bytes)
+    (htexts : rows.map (fun r => r.map (fun p => slice data p.1 p.2)) = lines.map (splitOn d))
+    (hwfp : ∀ r ∈ rows, ∀ p ∈ r, wfPair (isDelim d) data 0 p)
+    (hfirst : (lines.head?.bind List.getLast?) = some 13) :
+    (crAdjustRows data rows).map (fun r => r.map (fun p => slice data p.1 p.2)) = lines.map (fun l => splitOn d (stripCR l)) ∧
+    (∀ r ∈ crAdjustRows data rows, ∀ p ∈ r, p.1 ≤ p.2 ∧ p.2 ≤ data.length) := by
+  obtain ⟨l0, lrest, hl⟩ : ∃ l0 lrest, lines = l0 :: lrest := by
+    cases h : lines with
+    | nil => rw [h] at hfirst; simp at hfirst
+    | cons a b => exact ⟨a, b, rfl⟩
+  have hcr0 : l0.getLast? = some 13 := by rw [hl] at hfirst; simpa using hfirst
+  obtain ⟨r0, rest, hrows⟩ : ∃ r0 rest, rows = r0 :: rest := by
+    cases h : rows with
+    | nil => rw [h, hl] at htexts; simp at htexts
+    | cons a b => exact ⟨a, b, rfl⟩
+  have h0 : r0.map (fun p => slice data p.1 p.2) = splitOn d l0 := by
+    rw [hrows, hl] at htexts
+    simp only [List.map_cons, List.cons.injEq] at htexts
+    exact htexts.1
+  have hwf0 : ∀ p ∈ r0, p.1 ≤ p.2 ∧ p.2 ≤ data.length := by
+    intro p hp; obtain ⟨h1, h2, _, _⟩ := hwfp r0 (by rw [hrows]; simp) p hp; exact ⟨h1, by omega⟩
+  have hspec0 := adjRow_spec data d hd13 r0 l0 h0 hwf0 hcr0
+  have hr0ne : r0 ≠ [] := by
+    intro h; subst h; simp at h0; exact splitOn_ne_nil d l0 h0
+  obtain ⟨⟨s0, e0⟩, hp⟩ : ∃ q, r0.getLast hr0ne = q := ⟨_, rfl⟩
+  have hlast0 : r0.getLast? = some (s0, e0) := by rw [List.getLast?_eq_some_getLast hr0ne, hp]
+  obtain ⟨he0, h13⟩ := hspec0.2.2 s0 e0 hlast0
+  have hadj : crAdjustRows data rows = rows.map (adjRow data) := by
+    unfold crAdjustRows
+    rw [hrows]
+    simp only [hlast0]
+    rw [if_neg he0, if_pos h13]
+    rfl
+  rw [hadj]
+  refine ⟨?_, ?_⟩
+  · rw [List.map_map]
+    apply map_eq_map_of_pairwise (fun r => r.map (fun p => slice data p.1 p.2)) _ (splitOn d) _ rows lines htexts
+    intro r hr l _ h
+    exact (adjRow_general data d hd13 r l h (hwfp r hr)).1
+  · intro r hr p hp'
+    simp only [List.mem_map] at hr
+    obtain ⟨r', hr', rfl⟩ := hr
+    have hidx : ∃ l ∈ lines, r'.map (fun p => slice data p.1 p.2) = splitOn d l := by
+      have hm : r'.map (fun p => slice data p.1 p.2) ∈ rows.map (fun r => r.map (fun p => slice data p.1 p.2)) :=
+        List.mem_map.mpr ⟨r', hr', rfl⟩
+      rw [htexts] at hm
+      obtain ⟨l, hl', hle⟩ := List.mem_map.mp hm
+      exact ⟨l, hl', hle.symm⟩
+    obtain ⟨l, _, hle⟩ := hidx
+    exact (adjRow_general data d hd13 r' l hle (hwfp r' hr')).2 p hp'
+
+theorem splitOn_stripCR_length (d : Nat) (hd13 : d ≠ 13) (l : Bytes) :
+    (splitOn d (stripCR l)).length = (splitOn d l).length := by
+  unfold stripCR
+  split
+  · rename_i h
+    have hlne : l ≠ [] := by intro h0; rw [h0] at h; simp at h
+    have hl13 : l = l.dropLast ++ [13] := by
+      have := List.dropLast_concat_getLast hlne
+      rw [List.getLast?_eq_some_getLast hlne] at h
+      simp only [Option.some.injEq] at h
+      rw [h] at this
+      exact this.symm
+    conv => rhs; rw [hl13, splitOn_snoc d 13 (fun h => hd13 h.symm)]
+    have hne' := splitOn_ne_nil d l.dropLast
+    have hlenpos : 0 < (splitOn d l.dropLast).length := List.length_pos_iff.mpr hne'
+    simp only [List.length_append, List.length_dropLast, List.length_cons, List.length_nil]
+    omega
+  · rfl
+
+theorem crlfText_first (ls : List Bytes) (h : crlfText ls = true) : (ls.head?.bind List.getLast?) = some 13 := by
+  unfold crlfText at h
+  simp only [Bool.and_eq_true, List.all_eq_true, List.any_eq_true] at h
+  obtain ⟨hall, l, hl, h13⟩ := h
+  cases ls with
+  | nil => simp at hl
+  | cons a rest =>
+    cases rest with
+    | nil =>
+      simp only [List.mem_singleton] at hl
+      subst hl
+      simpa using h13
+    | cons b rest' =>
+      have := hall a (by simp [List.dropLast])
+      simpa using this
+
 /-- the lines as the format reads them: when every line ends in CR (a CRLF file) the CR is not part of the line -/
 def specLines (bs : Bytes) : List Bytes :=
   let ls := linesOf bs
   if crlfText ls then ls.map stripCR else ls
 
 /-- **parse_delimited.** For every schema made of the modelled column types (int, signed int, optional int,
-identifier, text, float-as-text, int list, strand), every delimiter other than LF/CR, and every file — LF or
-uniformly CRLF — with at least one record and one field per column on every line: the code's parse (offset table
+identifier, text, float-as-text, int list, strand), every delimiter other than LF/CR, and every file — LF, or
+CRLF where the last line may lack its CR (unterminated, or ended by a bare LF) — with at least one record and one field per column on every line: the code's parse (offset table
 → CR adjustment → typed column extraction) returns exactly the reference parse, `lines.map (splitOn TAB)` read
 column by column in the documented way, with one entry per line. -/
 theorem parse_delimited (S : Schema) (sks : List String) (bs : Bytes)
     (hk : S.cols.map (·.2) = sks.map normKind) (hd : S.delim ≠ 10) (hd13 : S.delim ≠ 13)
     (hne : linesOf bs ≠ [])
-    (huni : (∀ l ∈ linesOf bs, l.getLast? ≠ some 13) ∨ (∀ l ∈ linesOf bs, l.getLast? = some 13))
+    (huni : (∀ l ∈ linesOf bs, l.getLast? ≠ some 13) ∨ crlfText (linesOf bs) = true)
     (hlen : ∀ l ∈ specLines bs, (splitOn S.delim l).length = sks.length)
     (cs : List Col)
     (hspec : specColumnsFrom ((specLines bs).map (splitOn S.delim)) 0 sks = some cs) :
@@ -1732,44 +1955,18 @@ theorem parse_delimited (S : Schema) (sks : List String) (bs : Bytes)
     have := parse_assemble S sks bs t hk ht _ (by rw [hcr]; exact htexts)
       (by rw [hcr]; intro r hr p hp; obtain ⟨h1, h2, _, _⟩ := hwfp r hr p hp; exact ⟨h1, by omega⟩) cs hspec
     simpa using this
-  · -- CRLF
-    have hsl : specLines bs = (linesOf bs).map List.dropLast := by
+  · -- CRLF text: every line but possibly the last ends in CR
+    have hsl : specLines bs = (linesOf bs).map stripCR := by
       unfold specLines
-      simp only
-      have hcrlf : crlfText (linesOf bs) = true := by
-        unfold crlfText
-        simp only [Bool.and_eq_true, List.all_eq_true, List.any_eq_true]
-        refine ⟨fun l hl => by simp [hcr l (List.dropLast_subset _ hl)], ?_⟩
-        obtain ⟨l0, lrest, hl0⟩ : ∃ l0 lrest, linesOf bs = l0 :: lrest := by
-          cases h' : linesOf bs with
-          | nil => exact absurd h' hne
-          | cons a b => exact ⟨a, b, rfl⟩
-        exact ⟨l0, by rw [hl0]; simp, by simp [hcr l0 (by rw [hl0]; simp)]⟩
-      simp only [hcrlf, if_true]
-      apply List.map_congr_left
-      intro l hl
-      simp [stripCR, hcr l hl]
+      simp only [hcr, if_true]
     rw [hsl] at hlen hspec
     have hlen' : ∀ l ∈ linesOf bs, (splitOn S.delim l).length = sks.length := by
       intro l hl
-      have hlne : l ≠ [] := by intro h; have := hcr l hl; rw [h] at this; simp at this
-      have hl13 : l = l.dropLast ++ [13] := by
-        have := List.dropLast_concat_getLast hlne
-        have h2 := hcr l hl
-        rw [List.getLast?_eq_some_getLast hlne] at h2
-        simp only [Option.some.injEq] at h2
-        rw [h2] at this
-        exact this.symm
-      have := hlen l.dropLast (List.mem_map.mpr ⟨l, hl, rfl⟩)
-      rw [hl13, splitOn_snoc S.delim 13 (fun h => hd13 h.symm)]
-      have hne' := splitOn_ne_nil S.delim l.dropLast
-      have hlenpos : 0 < (splitOn S.delim l.dropLast).length := List.length_pos_iff.mpr hne'
-      simp only [List.length_append, List.length_dropLast, List.length_cons, List.length_nil]
-      omega
+      rw [← splitOn_stripCR_length S.delim hd13 l]
+      exact hlen (stripCR l) (List.mem_map.mpr ⟨l, hl, rfl⟩)
     obtain ⟨t, ht, htexts, hwfp⟩ := table_rows_facts S.delim hd bs sks.length hne hlen'
-    have hwf : ∀ r ∈ t.rows, ∀ p ∈ r, p.1 ≤ p.2 ∧ p.2 ≤ (complete bs).length := by
-      intro r hr p hp; obtain ⟨h1, h2, _, _⟩ := hwfp r hr p hp; exact ⟨h1, by omega⟩
-    obtain ⟨htx, hwf'⟩ := crAdjust_crlf (complete bs) S.delim hd13 t.rows (linesOf bs) hne htexts hwf hcr
+    obtain ⟨htx, hwf'⟩ := crAdjust_crmode (complete bs) S.delim hd13 t.rows (linesOf bs) htexts hwfp
+      (crlfText_first _ hcr)
     have := parse_assemble S sks bs t hk ht _ (by rw [htx]) hwf' cs (by
       rw [List.map_map] at hspec
       exact hspec)
@@ -2779,6 +2976,181 @@ theorem genotype_triplets :
     ((gtAlleles.flatMap (fun a => gtSeps.flatMap (fun s => gtAlleles.map (fun b => gtEncode [a, s, b])))).Nodup) := by
   decide +kernel
 
+/-! ### spec-level characterisations of the index-level vocabulary -/
+
+/-- **delimsFrom_mem_iff.** The delimiter positions are exactly the positions (counted from `k`) whose byte is a
+delimiter. -/
+theorem delimsFrom_mem_iff (isD : Nat → Bool) (k : Nat) (bs : Bytes) (e : Nat) :
+    e ∈ delimsFrom isD k bs ↔ k ≤ e ∧ e < k + bs.length ∧ isD (bs.getD (e - k) 0) = true := by
+  induction bs generalizing k with
+  | nil => simp [delimsFrom]; omega
+  | cons b rest ih =>
+    simp only [delimsFrom, List.length_cons]
+    by_cases hek : e = k
+    · subst hek
+      have hnot : e ∉ delimsFrom isD (e + 1) rest := by
+        intro h; have := (ih (e + 1)).mp h; omega
+      by_cases hD : isD b = true
+      · simp [hD]
+      · simp [hD, hnot]
+    · have hstep : (e ∈ delimsFrom isD (k + 1) rest) ↔ k ≤ e ∧ e < k + (rest.length + 1) ∧ isD ((b :: rest).getD (e - k) 0) = true := by
+        rw [ih (k + 1)]
+        constructor
+        · rintro ⟨h1, h2, h3⟩
+          refine ⟨by omega, by omega, ?_⟩
+          have : e - k = (e - (k + 1)) + 1 := by omega
+          rw [this, List.getD_cons_succ]; exact h3
+        · rintro ⟨h1, h2, h3⟩
+          have hk : k < e := by omega
+          refine ⟨by omega, by omega, ?_⟩
+          have : e - k = (e - (k + 1)) + 1 := by omega
+          rw [this, List.getD_cons_succ] at h3; exact h3
+      split
+      · simp only [List.mem_cons, hek, false_or]; exact hstep
+      · exact hstep
+
+/-- **delimsFrom_sorted.** Delimiter positions come out strictly increasing. -/
+theorem delimsFrom_sorted (isD : Nat → Bool) (k : Nat) (bs : Bytes) :
+    List.Pairwise (· < ·) (delimsFrom isD k bs) := by
+  induction bs generalizing k with
+  | nil => simp [delimsFrom]
+  | cons b rest ih =>
+    simp only [delimsFrom]
+    split
+    · rw [List.pairwise_cons]
+      refine ⟨fun e he => ?_, ih (k + 1)⟩
+      have := (delimsFrom_mem_iff isD (k + 1) rest e).mp he
+      omega
+    · exact ih (k + 1)
+
+/-- **splitOn_length.** A text with `c` separators has `c + 1` fields. -/
+theorem splitOn_length (d : Nat) (l : Bytes) : (splitOn d l).length = l.count d + 1 := by
+  have hj := joinWith_splitOn d l
+  have := count_joinWith d (splitOn d l) (splitOn_ne_nil d l) (fun p hp => (splitOn_pieces d l p hp).1)
+  rw [hj] at this
+  omega
+
+/-- **linesOf_length.** The number of complete lines is the number of newline bytes. -/
+theorem linesOf_length (bs : Bytes) : (linesOf bs).length = bs.count 10 := by
+  have h := splitOn_length 10 bs
+  rw [splitOn_eq_lines_tail] at h
+  simp at h
+  omega
+
+/-- **chunkF_flatten_take.** `reshape(k, n)` only rearranges: flattening the rows gives the first `n·k` elements back. -/
+theorem chunkF_flatten_take {α} (n k : Nat) (xs : List α) : (chunkF n k xs).flatten = xs.take (n * k) := by
+  induction k generalizing xs with
+  | zero => simp [chunkF]
+  | succ k ih =>
+    simp only [chunkF, List.flatten_cons, ih]
+    rw [Nat.mul_succ, Nat.add_comm (n * k) n, List.take_add]
+
+/-- **fieldTable_ok_iff.** The offset table is built exactly for buffers with at least one complete line whose lines
+all have as many fields as the first one; every other buffer is rejected. -/
+theorem fieldTable_ok_iff (d : Nat) (hd : d ≠ 10) (bs : Bytes) :
+    (∃ t, fieldTable d bs = .ok t) ↔
+      linesOf bs ≠ [] ∧ ∀ l ∈ linesOf bs, (splitOn d l).length = (splitOn d ((linesOf bs).headD [])).length := by
+  constructor
+  · rintro ⟨t, ht⟩
+    have hcomp := complete_eq bs
+    have hfree := linesOf_free bs
+    unfold fieldTable at ht
+    simp only at ht
+    split at ht
+    · simp at ht
+    · rename_i hne
+      have hlne : linesOf bs ≠ [] := by
+        intro h; apply hne; rw [hcomp, h]; rfl
+      refine ⟨hlne, ?_⟩
+      obtain ⟨l0, rest, hl⟩ : ∃ l0 rest, linesOf bs = l0 :: rest := by
+        cases h : linesOf bs with
+        | nil => exact absurd h hlne
+        | cons a b => exact ⟨a, b, rfl⟩
+      have hn : ((complete bs).takeWhile (fun b => b != 10)).count d + 1 = (splitOn d l0).length := by
+        rw [hcomp, hl]
+        have h1 : unlines (l0 :: rest) = l0 ++ 10 :: unlines rest := by simp [unlines]
+        rw [h1, takeWhile_append_stop _ l0 10 _ _ (by simp), splitOn_length]
+        intro x hx
+        have : x ≠ 10 := fun h => hfree l0 (by rw [hl]; simp) (h ▸ hx)
+        simp [this]
+      split at ht
+      · simp at ht
+      · rename_i hfind
+        rw [List.findIdx?_eq_none_iff] at hfind
+        intro l hlmem
+        rw [hl]; simp only [List.headD_cons]
+        have hc := hfind (l.count d + 1) (by
+          rw [hcomp, linesOf_unlines _ hfree]
+          exact List.mem_map.mpr ⟨l, hlmem, rfl⟩)
+        rw [splitOn_length, ← hn]
+        simpa using hc
+  · rintro ⟨hne, huni⟩
+    obtain ⟨t, ht, _⟩ := fieldTable_spec d hd bs _ hne huni
+    exact ⟨t, ht⟩
+
+/-- **signedRow_eq_specInt.** On every non-empty text the code's per-row integer conversion and the standard
+optionally-signed decimal reading agree completely: same value when the text is an integer, rejection otherwise
+(a lone sign, a sign inside, any non-digit). -/
+theorem signedRow_eq_specInt (t : Bytes) (hne : t ≠ []) : signedRow t = specInt t := by
+  cases hs : specInt t with
+  | some v => exact signedRow_spec t v hs
+  | none =>
+    -- specInt rejects: show signedRow rejects too
+    match t, hne, hs with
+    | c :: r, _, hs =>
+      unfold signedRow
+      by_cases hsign : c = 45 ∨ c = 43
+      · have hnat : specNat r = none := by
+          unfold specInt at hs
+          rcases hsign with h | h <;> subst h <;> (cases hn : specNat r <;> simp [hn] at hs ⊢)
+        have hr : r = [] ∨ r.all isDigit = false := by
+          unfold specNat at hnat
+          by_cases h0 : r = []
+          · exact Or.inl h0
+          · right
+            by_cases hall : r.all isDigit = true
+            · simp [h0, hall] at hnat
+            · simpa using hall
+        rcases hr with hr | hr
+        · subst hr
+          rcases hsign with h | h <;> subst h <;> simp
+        · cases r with
+          | nil => simp at hr
+          | cons x xs =>
+            have hb : ((48 :: x :: xs).all isDigit) = false := by
+              rw [List.all_cons, hr]; simp
+            rcases hsign with h | h <;> subst h <;> simp [hb]
+      · have h45 : c ≠ 45 := fun h => hsign (Or.inl h)
+        have h43 : c ≠ 43 := fun h => hsign (Or.inr h)
+        have hu := specInt_unsigned (c :: r) (by simp [h45]) (by simp [h43])
+        rw [hu] at hs
+        have hnat : specNat (c :: r) = none := by
+          cases hn : specNat (c :: r) <;> simp [hn] at hs ⊢
+        have hall : (c :: r).all isDigit = false := by
+          unfold specNat at hnat
+          by_cases hall : (c :: r).all isDigit = true
+          · simp [hall] at hnat
+          · simpa using hall
+        have hns : (decide (List.head? (c :: r) = some 45) || decide (List.head? (c :: r) = some 43)) = false := by
+          simp [h45, h43]
+        simp only [hns, Bool.false_and, Bool.false_eq_true, if_false, hall]
+
+/-- the one text on which they differ: an EMPTY integer field is read as 0 by the code (no digit to reject) while
+it is not an integer — rejecting it is the business of the malformed-input property (C15) -/
+theorem signedRow_empty : signedRow [] = some 0 ∧ specInt [] = none := by decide
+
+/-- **infoLookup_none_iff.** The INFO key lookup fails (FormatException "found multiple times") exactly when at
+least two items of the row start with `key=`. -/
+theorem infoLookup_none_iff (name : Bytes) (subs : List Bytes) :
+    infoLookup name subs = none ↔ 2 ≤ (subs.filter (isPrefix (name ++ [61]))).length := by
+  unfold infoLookup
+  cases h : subs.filter (isPrefix (name ++ [61])) with
+  | nil => simp
+  | cons a rest =>
+    cases rest with
+    | nil => simp
+    | cons b rest' => simp
+
 /-! ### non-vacuity -/
 
 -- "c\t1\t22\nxy\t333\t4\n" : two lines, three fields each
@@ -2821,5 +3193,13 @@ example : dataLines 35 (linesOf [97,9,98,10,35,120,9,121,10,99,9,100,10]) ≠ []
 -- sam_rows_spec: "a\tb\tc\nd\te\n" with k = 2
 example : linesOf [97,9,98,9,99,10,100,9,101,10] ≠ [] ∧ (∀ l ∈ linesOf [97,9,98,9,99,10,100,9,101,10], 2 ≤ (splitOn 9 l).length) ∧
     (∀ l ∈ linesOf [97,9,98,9,99,10,100,9,101,10], l.getLast? ≠ some 13) := by decide
+
+-- fieldTable_ok_iff / signedRow_eq_specInt: a ragged file is rejected, a lone sign is rejected by both readings
+example : (match fieldTable 9 [97, 9, 98, 10, 99, 10] with | .error (.format 1) => true | _ => false) = true := by decide
+example : signedRow [45] = none ∧ specInt [45] = none ∧ signedRow [45, 55] = some (-7) := by decide
+
+-- kline_roles_any: five lines, k = 2 (one left-over line); parse_delimited: CRLF text whose last line has no CR
+example : 2 ≤ (linesOf [62,97,10,65,10,62,98,10,67,10,62,99,10]).length := by decide
+example : crlfText (linesOf [99,9,49,13,10,100,9,50,50,10]) = true := by decide
 
 end C02
